@@ -24,6 +24,70 @@ def _has(lits, op, a, b):
   return any(t is want and pol for t, pol in lits)
 
 
+def _static_only(t) -> bool:
+  return not any(x.op in ("ld", "tid", "at", "lv", "carried") for x in subterms(t))
+
+
+def check_change_tracking(db, res) -> int:
+  """R-TRACK: dirty counters of the incremental solver path are bumped under exactly the change condition."""
+  n = 0
+  lcs = [lc for lc in db.launch_ctxs() if lc.name in WRITERS]
+  if not lcs:
+    res.error("anchor vanished: no launch of the constraint-update kernel")
+    return 0
+  quad = None
+  for lc in lcs:
+    acc = lc.keval.accesses
+    stores = [a for a in acc if a.kind == "w" and array_key(lc, a.root) == "Data.efc.state"]
+    if not stores:
+      continue
+    st = stores[0]
+    old = T("ld", st.root, *st.idx)
+    olds = {old, T("ld", st.root.replace("_out", "_in"), *st.idx)}
+    P = set(st.pc)
+    for a in acc:
+      if a.kind != "atomic_add":
+        continue
+      host = lc.host(a.root)
+      htxt = host.text if host is not None else a.root
+      which = "state" if "state_changed" in htxt else "quad" if "quad_changed_count" in htxt else None
+      if which is None or not P <= set(a.pc):
+        continue
+      n += 1
+      resid = [l for l in a.pc if l not in P]
+      change, extra = [], []
+      for l in resid:
+        t, pol = l.args[0], l.args[1]
+        if _static_only(t):
+          continue
+        if pol and t.op == "cmp" and t.args[0] == "!=":
+          x, y = t.args[1], t.args[2]
+          if which == "state" and ((x in olds and y is st.value) or (y in olds and x is st.value)):
+            change.append(l)
+            continue
+          if which == "quad":
+            def isq(u, v):
+              return isinstance(u, T) and u.op == "cmp" and u.args[0] == "==" and u.args[1] is v and any(s.op == "enum" and s.args[1] == "QUADRATIC" for s in subterms(u.args[2]))
+            if any((isq(x, o) and isq(y, st.value)) or (isq(y, o) and isq(x, st.value)) for o in olds):
+              change.append(l)
+              continue
+        extra.append(l)
+      key = f"{lc.name}|{which}_changed"
+      res.ob(
+        bool(change) and not extra,
+        key,
+        Finding(
+          "R-TRACK.1",
+          f"{lc.name}|{which}_changed|condition",
+          f"the `{which}_changed` counter is incremented under `{' & '.join(show(l)[:90] for l in resid)}`: "
+          + ("it is not conditioned on the tracked value changing" if not change else f"besides the change test it also requires `{' & '.join(show(l)[:120] for l in extra)}`, so some changes of efc.{'state' if which == 'state' else 'state (quadratic flag)'} are not counted and the incremental path reuses a stale gradient / qfrc_constraint"),
+          a.loc,
+        ),
+        sample={"counter": which, "residual_condition": [show(l)[:100] for l in resid]},
+      )
+  return n
+
+
 def run(db, res, tier):
   sm = db.sm
   fi = sm.func("solver._eval_constraint")
@@ -124,7 +188,9 @@ def run(db, res, tier):
             # sparse: J[w, 0, rowadr[w, r] + i] * force[w, r], written at colind[...]
             okp = any(s.op == "ld" and s.args[0].startswith("efc_J_rowadr") and s.args[2] is rowf for s in subterms(j.args[3])) and any(s.op == "ld" and s.args[0].startswith("efc_J_colind") and s.args[3] is j.args[3] for s in subterms(a.idx[1]))
       res.ob(okp, f"{lc.name}|JT-force", Finding("R-SIGN.8", f"{lc.name}|qfrc_constraint|JT-pairing", f"qfrc_constraint accumulates `{show(a.value)[:120]}`: J and force are not paired on the same row / written on J's column", a.loc))
-  res.rule_text = "Path-sensitive sign analysis of _eval_constraint: for every return vec3(force, state, cost) the (state, force form, path condition) triple is admissible - SATISFIED => 0; LINEARNEG => +frictionloss under jaref <= -rf; LINEARPOS => -frictionloss under jaref >= rf; friction QUADRATIC => -D*jaref under -rf < jaref < rf; limit/contact QUADRATIC => -D*jaref under jaref < 0; D is stored as x/max(., MJ_MINVAL) > 0; efc.force/state are written only by the constraint-update kernel from _eval_constraint; qfrc_constraint pairs J[r, j] with force[r] and lands on dof j"
+  ntr = check_change_tracking(db, res)
+  res.floor("change-tracking increments", ntr, 2)
+  res.rule_text = "R-TRACK: in the constraint-update kernel every counter the incremental (fast) path consults to decide whether qfrc_constraint / the gradient must be rebuilt is incremented under exactly the change condition of the value it tracks (state_changed: old efc.state != stored efc.state; quad_changed: (old == QUADRATIC) != (new == QUADRATIC)) and nothing stronger; Path-sensitive sign analysis of _eval_constraint: for every return vec3(force, state, cost) the (state, force form, path condition) triple is admissible - SATISFIED => 0; LINEARNEG => +frictionloss under jaref <= -rf; LINEARPOS => -frictionloss under jaref >= rf; friction QUADRATIC => -D*jaref under -rf < jaref < rf; limit/contact QUADRATIC => -D*jaref under jaref < 0; D is stored as x/max(., MJ_MINVAL) > 0; efc.force/state are written only by the constraint-update kernel from _eval_constraint; qfrc_constraint pairs J[r, j] with force[r] and lands on dof j"
   res.explanation = "Values are touched only through comparisons, so each return is decided from its syntactic path condition. Not decided: elliptic cone membership (numeric), equality of qfrc_constraint on the incremental path."
   res.extra["analysed"] = {"returns": n, "kinds": sorted(f"{a}:{b}" for a, b in kinds)}
   res.assumptions += ["efc.D > 0 whenever the impedance/reference computation of _efc_row yields finite values", "mu > 0, frictionloss >= 0 (MuJoCo compiler invariants)"]
